@@ -228,14 +228,9 @@ pub fn generate(seed: u64) -> C19Scn {
     C19Scn { doc, offset, initial_targets, flag_targets, events, session }
 }
 
-/// The tokenizer panics when a multi-byte end delimiter is the last character
-/// of the source (a totality matter, property C01, not decided here).  Such
-/// documents would only produce unevaluable scenarios, so they get a final newline.
-pub fn avoid_known_c01_panic(doc: &mut Doc) {
-    if doc.de.chars().last().map_or(false, |c| c.len_utf8() > 1) {
-        doc.final_newline = true;
-    }
-}
+/// (Until the tokenizer's end-offset defect was repaired - F6 - documents ending in a
+/// multi-byte end delimiter were given a final newline here.  Nothing is avoided any more.)
+pub fn avoid_known_c01_panic(_doc: &mut Doc) {}
 
 fn tick_exec(scn: &C19Scn, t: &Tick) -> Exec {
     let d = &scn.doc;
@@ -553,6 +548,22 @@ pub fn run(scn: &C19Scn, stats: &mut RunStats) -> Option<Violation> {
                         // does the library fail on this very input when called directly?
                         let direct = lib_call(&before, &scn.doc, &scn.offset, t.now, &targets, Mode::Clean, false);
                         if direct.is_err() {
+                            // The library itself fails on the text the earlier runs left behind.  If a
+                            // one-shot cleaning of the ORIGINAL with this configuration succeeds (in a
+                            // fresh process), step-by-step cleaning has failed where cleaning once
+                            // works: a composition failure.  If the one-shot fails too, the input is
+                            // simply outside what the library can process (totality, C01).
+                            if before != orig && fresh_one_shot(scn, &orig, t.now, &targets).is_ok() {
+                                return fail(
+                                    "C19.stepwise_run_fails_where_one_shot_succeeds",
+                                    "panic-on-own-output".into(),
+                                    format!(
+                                        "tick {} (now={:?}, targets={:?}) ended with {:?} on the text an earlier run produced, while cleaning the original once with this configuration succeeds\n  text left by the earlier runs: {:?}",
+                                        k, t.now, targets, other, before
+                                    ),
+                                    k,
+                                );
+                            }
                             stats.unevaluable = true;
                             stats.bump("unevaluable_library_panics_on_intermediate_text");
                             return None;
@@ -651,6 +662,20 @@ pub fn run(scn: &C19Scn, stats: &mut RunStats) -> Option<Violation> {
                         // the run failed without touching the file: a totality matter (C01) if the
                         // library fails on this very text when called directly
                         if lib_call(&after, &scn.doc, &scn.offset, t.now, &targets, Mode::Clean, false).is_err() {
+                            // the run succeeded, cleaning its output again fails: not idempotent in
+                            // the plainest sense (unless nothing was cleaned at all: then the original
+                            // itself is outside what the library can process)
+                            if after != orig {
+                                return fail(
+                                    "C19.I1_idempotent",
+                                    "second-run-fails-on-own-output".into(),
+                                    format!(
+                                        "cleaning the output of tick {} again with the same time and targets fails ({:?})\n  output of the first run: {:?}",
+                                        k, out2.status, after
+                                    ),
+                                    k,
+                                );
+                            }
                             stats.unevaluable = true;
                             stats.bump("unevaluable_library_panics_on_intermediate_text");
                             return None;
@@ -695,8 +720,10 @@ pub fn run(scn: &C19Scn, stats: &mut RunStats) -> Option<Violation> {
             // the reference for convergence comes from a brand-new process
             let one_shot = match fresh_one_shot(scn, &orig, last_t, &targets) {
                 Ok(r) => r,
-                Err(_) => {
+                Err(e) => {
                     stats.unevaluable = true;
+                    stats.bump("unevaluable_reference_panicked");
+                    stats.note(format!("one-shot reference failed: {}", e));
                     return None;
                 }
             };
@@ -723,7 +750,16 @@ pub fn run(scn: &C19Scn, stats: &mut RunStats) -> Option<Violation> {
         } else {
             let before = String::from_utf8_lossy(&after).into_owned();
             if lib_call(&before, &scn.doc, &scn.offset, last_t, &targets, Mode::Clean, false).is_err() {
+                if before != orig && fresh_one_shot(scn, &orig, last_t, &targets).is_ok() {
+                    return fail(
+                        "C19.stepwise_run_fails_where_one_shot_succeeds",
+                        "panic-on-own-output".into(),
+                        format!("the final run ended with {:?} on the text the earlier runs produced, while cleaning the original once with the final configuration succeeds\n  text left by the earlier runs: {:?}", out.status, before),
+                        k,
+                    );
+                }
                 stats.unevaluable = true;
+                stats.bump("unevaluable_library_panics_on_intermediate_text");
                 return None;
             }
             return fail("C19.tick_completes", "final".into(), format!("final run ended with {:?}", out.status), k);
